@@ -34,6 +34,7 @@ func runC15(c *Ctx, r *Report) {
 	c15R6(c, r, "C15.R6")
 	c15R7(c, r, "C15.R7")
 	c15MapsMade(c, r, "C15.R19")
+	c15AsymmetricCodec(c, r, "C15.R20")
 	c15R8(c, r, "C15.R8")
 	c15R9(c, r, "C15.R9")
 	c15R10(c, r, "C15.R10")
